@@ -51,8 +51,11 @@ class RandomsBase(HandlesDataChunk):
             has_redshifts=redshifts is not None,
         )
         self.reseed(seed)
-        self.weights = weights
-        self.redshifts = redshifts
+        # chunks of randoms are not checked for non-finite values, check here once
+        self.weights = None if weights is None else np.asarray_chkfinite(weights)
+        self.redshifts = (
+            None if redshifts is None else np.asarray_chkfinite(redshifts)
+        )
         self.data_size = self.get_data_size()
 
     def get_data_size(self) -> int:
